@@ -35,6 +35,13 @@ package wallet
 //@   ensures len(result) == n && fresh(result)
 //@   modifies nothing
 
+// Sealing reads its inputs and writes only what it allocates: the key store's entropy (handed in as inText, not copied by
+// keyStoreFromEntropy) is the same after a key file was written as before.
+//@ func aesGCMEncrypt(key, inText) -> (outText, nonce, err)
+//@   inline
+//@   ensures[leaves-the-plaintext-alone] bytesval(inText) == old(bytesval(inText)) && bytesval(key) == old(bytesval(key))
+//@   modifies nothing
+
 // Encrypt and decrypt agree on key, nonce and additional data: what aesGCMEncrypt produced, aesGCMDecrypt opens to the input.
 //@ lemma aes_gcm_roundtrip
 //@   attr uses aead-roundtrip
